@@ -222,6 +222,6 @@ func runC13(c C13Case, info *kit.Info) *kit.Finding {
 }
 
 func TestC13_Deadlock(t *testing.T) {
-	p := kit.Prop[C13Case]{ID: "C13", Name: "Deadlock", Quick: 600, Thorough: 24000, Gen: genC13, Run: runC13}
+	p := kit.Prop[C13Case]{ID: "C13", Name: "Deadlock", Quick: 1000, Thorough: 100000, Gen: genC13, Run: runC13}
 	p.Execute(t)
 }
